@@ -32,11 +32,47 @@ def rhsOf : List String → Option Rhs
   | "c" :: rest => (svOf rest).map .c
   | _ => none
 
+def optName (w : String) : Option (Option Nat) :=
+  if w == "-" then some none else w.toNat?.map some
+
+/-- a sequence of constants `n A` | `n2 A B` | `s TEXT`: returns the number of constants and the last one -/
+def constsOf : List String → Nat → Option SV → Option (Nat × Option SV)
+  | [], n, last => some (n, last)
+  | "n" :: a :: rest, n, _ => match a.toNat? with
+    | some x => constsOf rest (n + 1) (some (.n x))
+    | none => none
+  | "n2" :: a :: b :: rest, n, _ => match a.toNat?, b.toNat? with
+    | some x, some y => constsOf rest (n + 1) (some (.n2 x y))
+    | _, _ => none
+  | "s" :: t :: rest, n, _ => constsOf rest (n + 1) (some (.s t))
+  | _, _, _ => none
+
+def rangeOf (ws : List String) : Option Action :=
+  match ws with
+  | ["rngs", kn, vn, text] => do
+    let kn ← optName kn
+    let vn ← optName vn
+    if text == "-" then pure (.rng kn vn .int32 none) else
+    let bs := Drv.bytes text
+    pure (.rng kn vn .int32 (some (bs.length - 1, .n (bs.getLastD 0))))
+  | "rngl" :: kn :: vn :: k :: rest => do
+    let kn ← optName kn
+    let vn ← optName vn
+    let k ← kindOf k
+    let (n, last) ← constsOf rest 0 none
+    match last with
+    | none => pure (.rng kn vn k none)
+    | some v => pure (.rng kn vn k (some (n - 1, v)))
+  | _ => none
+
 def actionOf (ws : List String) : Option Action :=
   match ws with
   | ["decl", n, k, "-"] => do pure (.decl (← n.toNat?) (← kindOf k) none)
   | "decl" :: n :: k :: "c" :: rest => do pure (.decl (← n.toNat?) (← kindOf k) (some (← svOf rest)))
   | ["addr", p, n] => do pure (.addr (← p.toNat?) (← n.toNat?))
+  | ["addrf", p, n, f, _] => do pure (.addrf (← p.toNat?) (← n.toNat?) (← f.toNat?))
+  | "rngs" :: _ => rangeOf ws
+  | "rngl" :: _ => rangeOf ws
   | "asg" :: n :: o :: rest => do pure (.asg (← n.toNat?) (← opOf o) (← rhsOf rest))
   | "wrp" :: p :: o :: rest => do pure (.wrp (← p.toNat?) (← opOf o) (← rhsOf rest))
   | ["read", n] => do pure (.read (← n.toNat?))
